@@ -20,6 +20,11 @@ package scen
 //   end answered 410     => no tombstone now (body may have been stored: not demanded either way)
 //   job end of a superseded sync => feed unchanged
 //   between two ops and after a final sleep => feed unchanged (no late tombstones)
+//   own end request refused with 5xx (e.g. its context was cancelled) => nothing deleted; the sync is not completed.
+//       If the HISTORY then orders sleeps of >= 3 lease timeouts with no accepted request of that sync in between
+//       (a requested, not a measured duration - the only place a duration enters a verdict), the sync must be dead:
+//       a header-less / foreign-id write answered 409 or a late end with its id answered 200 is a violation.
+//       A retry of the end before that may complete the sync (then the completion rule applies).
 //   foreign-id batch answered 200 inside a sync that later completes with 200 => violation
 
 import (
@@ -79,7 +84,10 @@ type C9Op struct {
 	Job  int     `json:"job,omitempty"`
 	Ents []C9Ent `json:"ents,omitempty"`
 	Ms   int     `json:"ms,omitempty"`
-	Par  []C9Op  `json:"par,omitempty"`
+	// Cancel (hend, jend): the request context is cancelled "pre" = before the request is issued (client gone /
+	// timed out) or "hook" = when the hub reaches ds.completeFullSync.begin
+	Cancel string `json:"cancel,omitempty"`
+	Par    []C9Op `json:"par,omitempty"`
 }
 
 type C9Case struct {
@@ -184,6 +192,12 @@ func genC9Case(r *rand.Rand, parPct int, hookPct int, tmplPct int, leaseMs int) 
 		}
 		return "Z"
 	}
+	foreignIDOf := func(cl *c9Client) string {
+		if cl.id == "" {
+			return "Z"
+		}
+		return ""
+	}
 	startHTTP := func(idless bool) C9Op {
 		if len(active()) > 0 {
 			tags["supersede"] = true
@@ -271,7 +285,35 @@ func genC9Case(r *rand.Rand, parPct int, hookPct int, tmplPct int, leaseMs int) 
 		}
 		return p
 	}
-	sleepOp := func() C9Op { tags["sleep"] = true; return C9Op{K: "sleep", Ms: L * 16 / 10} }
+	failedEnds := 0
+	sleepOp := func() C9Op {
+		tags["sleep"] = true
+		if failedEnds > 0 && r.Intn(2) == 0 { // "longer than the lease" by a wide margin
+			tags["long-sleep"] = true
+			return C9Op{K: "sleep", Ms: L * 32 / 10}
+		}
+		return C9Op{K: "sleep", Ms: L * 16 / 10}
+	}
+	longSleep := func() C9Op { tags["sleep"], tags["long-sleep"] = true, true; return C9Op{K: "sleep", Ms: L * 32 / 10} }
+	// cancelledEnd: the end request of cl with a request context that is cancelled before the request is sent
+	// (client gone / timed out) or when the hub begins the completion. The client is NOT finished: it may retry.
+	cancelledEnd := func(cl *c9Client) C9Op {
+		tags["cancelled-end"] = true
+		failedEnds++
+		how := "pre"
+		if r.Intn(3) == 0 {
+			how = "hook"
+		}
+		if cl.http {
+			op := C9Op{K: "hend", ID: cl.id, Cancel: how}
+			if r.Intn(4) == 0 {
+				op.Ents = c9Body(r, nil, false, 2)
+			}
+			return op
+		}
+		cl.ended = true // a job whose end failed starts over with a new run
+		return C9Op{K: "jend", Job: cl.job, Cancel: how}
+	}
 	idlessEnd := func() C9Op { // an end request without a sync id header
 		tags["idless-end"] = true
 		op := C9Op{K: "hend"}
@@ -303,7 +345,10 @@ func genC9Case(r *rand.Rand, parPct int, hookPct int, tmplPct int, leaseMs int) 
 				f()
 			}
 		}
-		t := r.Intn(8)
+		t := r.Intn(11)
+		if t > 8 { // the failed-end order needs several steps in a row: give it a larger share
+			t = 8
+		}
 		tags[fmt.Sprintf("template-%d", t)] = true
 		switch t {
 		case 0: // HTTP sync superseded by a job sync, then an end request without id while the job sync runs / is abandoned
@@ -353,6 +398,22 @@ func genC9Case(r *rand.Rand, parPct int, hookPct int, tmplPct int, leaseMs int) 
 			j := latest()
 			maybe(60, func() { add(batchOf(j, nil)) })
 			add(endOf(j), idlessEnd())
+		case 8: // the end request fails (cancelled), the sync is abandoned for much longer than the lease, then late requests
+			add(startHTTP(r.Intn(8) == 0))
+			h := latest()
+			maybe(60, func() { add(batchOf(h, nil)) })
+			add(cancelledEnd(h))
+			maybe(25, func() { add(endOf(h)); h.ended = false }) // immediate retry
+			add(longSleep())
+			switch r.Intn(3) {
+			case 0:
+				add(C9Op{K: "hbatch", ID: foreignIDOf(h), Ents: c9Body(r, nil, false, 2)}, endOf(h))
+			case 1:
+				add(endOf(h))
+			default:
+				add(C9Op{K: "hbatch", ID: foreignIDOf(h), Ents: c9Body(r, nil, false, 2)})
+				maybe(50, func() { add(longSleep(), endOf(h)) })
+			}
 		case 7: // id-less HTTP sync superseded by a job sync; the HTTP client goes on without id
 			add(startHTTP(true))
 			h := latest()
@@ -399,12 +460,14 @@ func genC9Case(r *rand.Rand, parPct int, hookPct int, tmplPct int, leaseMs int) 
 		switch {
 		case x < 28:
 			c.Ops = append(c.Ops, batchOf(cl, nil))
-		case x < 50:
+		case x < 46:
 			e := endOf(cl)
 			if r.Intn(100) < parPct {
 				e = parWrap(e, cl)
 			}
 			c.Ops = append(c.Ops, e)
+		case x < 50:
+			c.Ops = append(c.Ops, cancelledEnd(cl))
 		case x < 58:
 			c.Ops = append(c.Ops, C9Op{K: "hbatch", ID: foreignID(), Ents: c9Body(r, nil, false, 2)})
 			tags["foreign-batch"] = true
@@ -513,6 +576,13 @@ type c9Sync struct {
 	httpNoIDWrites  []int        // ops: header-less HTTP write answered 200 inside a job sync
 }
 
+// c9Zombie: a sync whose own end request failed; waited = requested sleep (ms) since then without an accepted request of that sync.
+type c9Zombie struct {
+	sync     *c9Sync
+	failedOp int
+	waited   int
+}
+
 type c9Res struct {
 	Status int    `json:"status"` // HTTP status; job ops: 200 = nil error, 500 = error
 	Err    string `json:"err,omitempty"`
@@ -541,8 +611,10 @@ type c9Run struct {
 	supersede           bool
 	expiry              bool
 	obsTags             map[string]bool
-	sawParEnd           bool // a group of concurrent requests containing an end ran earlier in this history
-	jobSyncGotHTTPWrite bool // a header-less HTTP write was answered 200 inside some job sync of this history
+	zombie              *c9Zombie // HTTP sync whose own end request was refused with 5xx
+	cancelAtComp        func()    // set while an end request with Cancel=="hook" is in flight
+	sawParEnd           bool      // a group of concurrent requests containing an end ran earlier in this history
+	jobSyncGotHTTPWrite bool      // a header-less HTTP write was answered 200 inside some job sync of this history
 
 	sinkMu     sync.Mutex
 	sinks      map[int]*jobs.VerifC09Sink
@@ -700,6 +772,23 @@ func (r *c9Run) post(op C9Op) c9Res {
 	if op.ID != "" {
 		req.Header.Set(c9HdrID, op.ID)
 	}
+	if op.Cancel != "" {
+		cctx, cancel := context.WithCancel(req.Context())
+		defer cancel()
+		req = req.WithContext(cctx)
+		if op.Cancel == "pre" {
+			cancel()
+		} else {
+			r.hookMu.Lock()
+			r.cancelAtComp = cancel
+			r.hookMu.Unlock()
+			defer func() {
+				r.hookMu.Lock()
+				r.cancelAtComp = nil
+				r.hookMu.Unlock()
+			}()
+		}
+	}
 	rec := httptest.NewRecorder()
 	r.h.e.ServeHTTP(rec, req)
 	res := c9Res{Status: rec.Code}
@@ -746,7 +835,25 @@ func (r *c9Run) exec(op C9Op) (res c9Res) {
 		}
 		return jobRes(r.sink(op.Job).ProcessEntities(ents))
 	case "jend": // jobs.datasetSink.endFullSync
-		return jobRes(r.sink(op.Job).EndFullSync(context.Background()))
+		jctx := context.Background()
+		if op.Cancel != "" {
+			cctx, cancel := context.WithCancel(jctx)
+			defer cancel()
+			jctx = cctx
+			if op.Cancel == "pre" {
+				cancel()
+			} else {
+				r.hookMu.Lock()
+				r.cancelAtComp = cancel
+				r.hookMu.Unlock()
+				defer func() {
+					r.hookMu.Lock()
+					r.cancelAtComp = nil
+					r.hookMu.Unlock()
+				}()
+			}
+		}
+		return jobRes(r.sink(op.Job).EndFullSync(jctx))
 	case "sleep":
 		time.Sleep(time.Duration(op.Ms) * time.Millisecond)
 		return c9Res{Status: 200}
@@ -788,6 +895,9 @@ func (r *c9Run) hook(point string, ms int) func(string, int64) {
 			time.Sleep(time.Duration(ms) * time.Millisecond)
 		}
 		r.hookMu.Lock()
+		if point == c9HookComp && r.cancelAtComp != nil {
+			r.cancelAtComp()
+		}
 		r.hookSeq++
 		r.hookEvs = append(r.hookEvs, c9HookEv{seq: r.hookSeq, point: point, phase: "exit", op: int(atomic.LoadInt64(&r.opInFlight))})
 		r.hookMu.Unlock()
@@ -974,6 +1084,12 @@ func (r *c9Run) step(i int, op C9Op) bool {
 		if r.cur != nil {
 			r.cur.sleeps++
 		}
+		if r.zombie != nil {
+			r.zombie.waited += op.Ms
+			if r.zombie.waited >= 3*r.cas.LeaseMs {
+				out.Stat("failed_end_then_history_waited_3_leases", 1)
+			}
+		}
 		r.lastPost = post
 		return true
 	}
@@ -1048,6 +1164,7 @@ func (r *c9Run) judge(i int, par bool, ops []C9Op, res []c9Res, pre, post []C9En
 				r.obsTags["start-refused"] = true
 				continue
 			}
+			r.zombie = nil // whatever was left of an earlier sync is superseded now
 			if r.cur != nil {
 				r.supersede = true
 				r.obsTags["supersede"] = true
@@ -1077,6 +1194,18 @@ func (r *c9Run) judge(i int, par bool, ops []C9Op, res []c9Res, pre, post []C9En
 				for _, e := range op.Ents {
 					concurrent[e.N] = true
 				}
+				if z := r.zombie; z != nil {
+					for _, e := range op.Ents { // if that sync is still open in the hub, this write belongs to it
+						z.sync.written[e.N] = true
+					}
+					if op.K == "hbatch" {
+						if op.ID == z.sync.id {
+							z.waited = 0 // an accepted request of that sync may legitimately have renewed its lease
+						} else {
+							r.zombie = nil // the hub accepted a write that does not carry its id: by its own word the sync is gone
+						}
+					}
+				}
 				if r.cur != nil {
 					for _, e := range op.Ents {
 						r.cur.written[e.N] = true
@@ -1099,6 +1228,12 @@ func (r *c9Run) judge(i int, par bool, ops []C9Op, res []c9Res, pre, post []C9En
 				if r.cur == nil {
 					out.Stat("rejected_409_without_sync_in_model", 1)
 				}
+				if z := r.zombie; z != nil && r.cur == nil && op.K == "hbatch" && op.ID != z.sync.id && z.waited >= 3*r.cas.LeaseMs {
+					r.viol(i, "failed-end-sync-alive-past-lease/write-rejected",
+						fmt.Sprintf("op %d: write with sync id %q answered 409 although the only sync it can conflict with (%s) had its end request refused at op %d and the history has waited %d ms (lease %d ms) since, with no accepted request of that sync",
+							i, op.ID, z.sync.owner, z.failedOp, z.waited, r.cas.LeaseMs),
+						"200 (no sync alive)", res[k])
+				}
 				if !par {
 					context = "rejected-409"
 				}
@@ -1118,6 +1253,31 @@ func (r *c9Run) judge(i int, par bool, ops []C9Op, res []c9Res, pre, post []C9En
 	}()
 	// ---- the end request
 	if endOp != nil {
+		lateZombie := false
+		if z := r.zombie; z != nil && r.cur == nil && endOp.K == "hend" && z.sync.owner == "http:"+endOp.ID {
+			switch {
+			case endRes.Status == 200 && z.waited >= 3*r.cas.LeaseMs:
+				lateZombie = true
+				r.viol(i, "failed-end-sync-alive-past-lease/late-end-completed",
+					fmt.Sprintf("op %d: end request of sync %s answered 200 although its earlier end request was refused at op %d and the history has waited %d ms (lease %d ms) since, with no accepted request of that sync",
+						i, z.sync.owner, z.failedOp, z.waited, r.cas.LeaseMs), "410", 200)
+				r.zombie = nil
+			case endRes.Status == 200:
+				// a retry inside the lease: the hub may complete the sync; then the completion rule applies
+				out.Stat("failed_end_retried_and_completed", 1)
+				r.cur = z.sync
+				r.zombie = nil
+			case endRes.Status == 410:
+				out.Stat("late_end_after_failed_end_answered_410", 1)
+				r.zombie = nil
+			}
+		}
+		if z := r.zombie; z != nil && endOp.K == "hend" && endRes.Status != 200 && endRes.Status != 409 {
+			// body of a refused end request while that sync may still be open in the hub: stored (and seen) or not
+			for _, e := range endOp.Ents {
+				z.sync.maybeWritten[e.N] = true
+			}
+		}
 		own := false
 		if endOp.K == "hend" {
 			own = r.cur != nil && r.cur.owner == "http:"+endOp.ID
@@ -1193,6 +1353,9 @@ func (r *c9Run) judge(i int, par bool, ops []C9Op, res []c9Res, pre, post []C9En
 			r.obsTags["superseded-job-end"] = true
 		case endRes.Status == 200 && r.cur == nil:
 			context = "end-200-without-sync"
+			if lateZombie {
+				context = "failed-end-sync-alive-past-lease"
+			}
 			addBody(bodies, endOp.Ents)
 		case endRes.Status == 200: // HTTP end request that does not belong to the current sync accepted
 			context = "foreign-end-accepted"
@@ -1236,6 +1399,9 @@ func (r *c9Run) judge(i int, par bool, ops []C9Op, res []c9Res, pre, post []C9En
 				context = "failed-job-end"
 			}
 			out.Stat("job_end_errors", 1)
+			if endOp.Cancel != "" {
+				out.Stat("cancelled_end_refused:jend:"+endOp.Cancel, 1)
+			}
 			r.obsTags["job-end-error"] = true
 			if own {
 				r.cur = nil
@@ -1254,7 +1420,17 @@ func (r *c9Run) judge(i int, par bool, ops []C9Op, res []c9Res, pre, post []C9En
 			}
 			out.Stat(fmt.Sprintf("end_refused_%d", endRes.Status), 1)
 			r.obsTags["end-refused-5xx"] = true
+			if endOp.Cancel != "" {
+				out.Stat("cancelled_end_refused:"+endOp.K+":"+endOp.Cancel, 1)
+			}
 			if own {
+				if endOp.K == "hend" {
+					// not completed; whether it may still be retried is the hub's choice, but it cannot outlive its lease
+					for _, e := range endOp.Ents {
+						r.cur.maybeWritten[e.N] = true
+					}
+					r.zombie = &c9Zombie{sync: r.cur, failedOp: i}
+				}
 				r.cur = nil
 			}
 		}
